@@ -181,7 +181,7 @@ def install(reg):
         MonitorSpec("outbuf_lock", ["outbufs", "total_outbufs_len", "current_outbuf_count", "connected"], OUT_INV, name="out"),
     ]
     # R3: the I/O thread may touch output state without the lock only while no worker owns the connection
-    reg.monitors[1].unlocked_ok = lambda eng, me: z3.And(z3.BoolVal((eng.role or "").rstrip("L") == "IO"), eng.truth(eng.state.heap[(me.oid, "requests")]) == False)
+    reg.monitors[1].unlocked_ok = lambda eng, me: z3.BoolVal(False)
     reg.monitors[1].unlocked_fields = {"connected"}          # `connected` is also cleared by the I/O thread on EOF / close (single writer side)
     # current_outbuf_count is only ever touched by the owner of the connection (worker while requests != [], I/O thread otherwise)
     reg.monitors[1].field_unlocked_ok = {"current_outbuf_count": lambda eng, me: z3.Or(
@@ -195,7 +195,10 @@ def install(reg):
     reg.add_class(ClassSpec("buffers.ReadOnlyFileBasedBuffer", fields={"remain": Int}, invariants=[("remain-nonneg", "self.remain >= 0")], inherit=False))
     reg.inline.update({"buffers.FileBasedBuffer.__bool__", "buffers.FileBasedBuffer.__len__"})
     R4 = ("worker-never-closes", "implies(role_is('W'), not do_close)")
-    R3 = ("owns-output-state", "holds('outbuf_lock') or (role_is('IO') and len(self.requests) == 0)")
+    # every flush / every access to the output state holds outbuf_lock, on either thread.  (Until 40d7a9a the I/O thread flushed
+    # without the lock while `requests` was empty; that was not exclusive with the worker's locked flush in the trailing
+    # send_continue() of service(), see FX-C04-40d7a9a.)
+    R3 = ("owns-output-state", "holds('outbuf_lock')")
 
     # ---- wasyncore.dispatcher.send : assumed socket contract (demonic socket), R4 as precondition
     reg.add(FuncContract("wasyncore.dispatcher.send", params={"data": Bytes, "do_close": Bool}, returns=Int, requires=[R4],
